@@ -20,7 +20,7 @@ for _n in ("pytorch_lightning", "lightning.pytorch", "lightning", "lightning_fab
 warnings.filterwarnings("ignore")
 
 X, U = Space({"x": 1}), Space({"u": 1})
-MENU = ["pinn_static", "boundary", "param_penalty", "pinn_param", "adaptive_w", "data2", "pinn_random", "pideeponet"]
+MENU = ["pinn_static", "boundary", "param_penalty", "pinn_param", "adaptive_w", "data2", "pinn_random", "pideeponet", "periodic_param"]
 OPTS = {
     "sgd": dict(cls=torch.optim.SGD, lr=0.05, args={}),
     "sgd_momentum": dict(cls=torch.optim.SGD, lr=0.05, args={"momentum": 0.9}),
@@ -34,9 +34,11 @@ class World:
     """fresh, identically initialised user objects; conditions are built from them on demand"""
     def __init__(self):
         torch.manual_seed(123)
-        self.model = tp.models.FCN(X, U, hidden=(4,))
+        # ONE adaptive activation instance serves both hidden layers: its parameter `a` is tied (two state-dict keys)
+        self.model = tp.models.FCN(X, U, hidden=(4, 3), activations=tp.models.AdaptiveActivationFunction(nn.Tanh(), inital_a=0.9))
         self.model2 = tp.models.FCN(X, U, hidden=(3,))
         self.D = tp.models.Parameter(init=0.7, space=Space({"D": 1}))
+        self.J = tp.models.Parameter(init=0.3, space=Space({"J": 1}))      # only used by the periodic condition
         self.dom = tp.domains.Interval(X, 0.0, 1.0)
         self.conds = {}
         self._deeponet = None
@@ -79,6 +81,8 @@ class World:
         elif kind == "pideeponet":
             net, fset = self.deeponet()
             c = Cn.PIDeepONetCondition(net, fset, S.GridSampler(self.dom, 3).make_static(), lambda u, x: u - x, weight=weight, name=kind)
+        elif kind == "periodic_param":
+            c = Cn.PeriodicCondition(self.model, self.dom, lambda u_left, u_right, J: u_left - u_right - J, parameter=self.J, weight=weight, name=kind)
         elif kind == "val_data":
             xs = torch.linspace(0, 1, 3).reshape(3, 1)
             ld = PointsDataLoader((Points(xs, X), Points(xs * 0.5, U)), batch_size=3)
@@ -175,13 +179,16 @@ def reference_run(kinds, weights, optname, N):
 
 
 class StepRecorder(pl.Callback):
-    def __init__(self, named):
+    def __init__(self, named, model=None):
         self.named = named
-        self.snaps, self.osnaps = [], []
+        self.model = model
+        self.snaps, self.osnaps, self.sd_snaps = [], [], []
 
     def on_train_batch_end(self, trainer, pl_module, outputs, batch, batch_idx, dataloader_idx=0):
         self.snaps.append(snapshot(self.named))
         self.osnaps.append(opt_state_of(trainer.optimizers[0], self.named))
+        if self.model is not None:
+            self.sd_snaps.append({k: v.detach().clone() for k, v in self.model.state_dict().items()})
 
 
 def make_trainer(N, callbacks=(), val=False, val_interval=1, **kw):
@@ -206,7 +213,8 @@ def solver_run(kinds, weights, optname, N, val_kinds=(), val_interval=1, extra_c
     setting = tp.solver.OptimizerSetting(o["cls"], o["lr"], optimizer_args=dict(o["args"]), scheduler_class=o.get("sched"),
                                          scheduler_args=dict(o.get("sargs", {})), scheduler_frequency=o.get("freq", 1))
     solver = tp.solver.Solver(conds, val_conditions=vconds, optimizer_setting=setting)
-    rec = StepRecorder(named)
+    rec = StepRecorder(named, model=w.model)
+    w.sd_snaps = rec.sd_snaps
     tr = make_trainer(N, callbacks=[rec] + list(extra_callbacks), val=bool(val_kinds), val_interval=val_interval)
     with Seam(budget=100000):
         tr.fit(solver, ckpt_path=ckpt_path)
